@@ -16,6 +16,25 @@ ASSUMPTIONS = ["rand::rngs::OsRng is the only non-deterministic input of Commune
 TRUSTED = []
 
 
+def threshold_unmodified(ctx, rule, roots):
+    """the threshold travels unmodified from the access structure into Sharks"""
+    for root7 in roots:
+        e7, r7, _, _ = ctx.root(root7)
+        cs = [e for e in Q.calls(e7, "star_sharks::Sharks::") if e["callee"].endswith(("::dealer_rng", "::recover"))]
+        ok7 = bool(cs)
+        found = []
+        for e in cs:
+            sh_ = e["argv"][0]
+            thr = sh_.args[1] if sh_.op == "agg" and len(sh_.args) == 2 else None
+            p = Q.path_of(thr) if thr is not None else None
+            found.append(p or S(thr, 3))
+            if p is None or not p.endswith(".0"):
+                ok7 = False
+        ctx.add(rule, root7 + "#threshold-passed-unmodified", ok7,
+                "Sharks must be parameterised with exactly the access structure's threshold (no clamping, narrowing or arithmetic): %s" % found,
+                ctx.fn(root7).loc, sample=found)
+
+
 def run(ctx):
     root = "adss::Commune::share"
     eng, ret, st, fr = ctx.root(root)
@@ -133,21 +152,7 @@ def run(ctx):
     c01.adss_cipher_agreement(ctx, "C16.R6")
     ctx.floor("C16.R6", 2)
     # ---- R7 the threshold travels unmodified from the access structure into Sharks (share and recover alike) --------
-    for root7 in ("adss::Commune::share", "adss::recover"):
-        e7, r7, _, _ = ctx.root(root7)
-        cs = [e for e in Q.calls(e7, "star_sharks::Sharks::") if e["callee"].endswith(("::dealer_rng", "::recover"))]
-        ok7 = bool(cs)
-        found = []
-        for e in cs:
-            sh_ = e["argv"][0]
-            thr = sh_.args[1] if sh_.op == "agg" and len(sh_.args) == 2 else None
-            p = Q.path_of(thr) if thr is not None else None
-            found.append(p or S(thr, 3))
-            if p is None or not p.endswith(".0"):
-                ok7 = False
-        ctx.add("C16.R7", root7 + "#threshold-passed-unmodified", ok7,
-                "Sharks must be parameterised with exactly the access structure's threshold (no clamping or arithmetic): %s" % found,
-                ctx.fn(root7).loc, sample=found)
+    threshold_unmodified(ctx, "C16.R7", ("adss::Commune::share", "adss::recover"))
     ctx.floor("C16.R7", 2)
 
     # ---- R5: no length combination of message / coins can crash sharing or recovery (PANIC engine of C09) ------
